@@ -1,5 +1,6 @@
 import LoraVerif.Model.Mac
 import LoraVerif.Gen.SessionStatic
+import LoraVerif.Gen.FrontEndStatic
 /-!
 # C12, tie A: the ADR thresholds of `session.rs`
 
@@ -43,4 +44,19 @@ theorem tieA_adrConstants :
 
 #print axioms tieA_backoffDue
 #print axioms tieA_adrAckLimitReached
+/-- The MAC-level histories of the correspondence are driven through the cfg-guarded facade
+`VerifMac`, whose `set_adr` / `set_datarate` repeat the statements of the two front-ends'
+`Device::set_adr` / `Device::set_datarate`.  The three bodies of the CURRENT source, normalised by
+the translator (parameters renamed positionally, `self.shared.mac` written `self.mac`), are the same
+text: what the correspondence establishes for the facade (it behaves like `macSetAdr` /
+`macSetDatarate`) is established for the statements the front-ends execute.  (The front-ends are
+also driven directly: class `device-adr-silent-run`.) -/
+theorem tieA_setAdr_mirror :
+    Gen.FrontEndStatic.async_set_adr = Gen.FrontEndStatic.hook_set_adr ∧
+    Gen.FrontEndStatic.nb_set_adr = Gen.FrontEndStatic.hook_set_adr := ⟨rfl, rfl⟩
+
+theorem tieA_setDatarate_mirror :
+    Gen.FrontEndStatic.async_set_datarate = Gen.FrontEndStatic.hook_set_datarate ∧
+    Gen.FrontEndStatic.nb_set_datarate = Gen.FrontEndStatic.hook_set_datarate := ⟨rfl, rfl⟩
+
 end C12
